@@ -30,6 +30,9 @@ var (
 // ErrEmptyCommand is returned for a request array without elements.
 var ErrEmptyCommand = errors.New("empty command")
 
+// ErrNotInteger is returned when a counter command finds a value that is not a canonical integer.
+var ErrNotInteger = errors.New("value is not an integer or out of range")
+
 // ErrOverflow is returned when an increment or decrement would overflow.
 var ErrOverflow = errors.New("increment or decrement would overflow")
 
